@@ -383,14 +383,14 @@ Lemma sview_set_transmission : forall p s, sview_of (fst (set_transmission p s))
 Proof.
   intros. unfold set_transmission. destruct p as [|b off len first last]; cbn [fst]; auto.
   destruct (if first then Some [] else incoming (sr (nd s))); cbn [fst]; auto.
-  destruct last; cbn [fst]; now apply sview_upd.
+  destruct last; [destruct (snap_ahead _ _)|]; cbn [fst]; now apply sview_upd.
 Qed.
 
 Lemma log_set_transmission : forall p s, log (nd (fst (set_transmission p s))) = log (nd s).
 Proof.
   intros. unfold set_transmission. destruct p as [|b off len first last]; cbn [fst]; auto.
   destruct (if first then Some [] else incoming (sr (nd s))); cbn [fst]; auto.
-  destruct last; reflexivity.
+  destruct last; [destruct (snap_ahead _ _)|]; reflexivity.
 Qed.
 
 (* ---- __sendAppendEntries ---- *)
